@@ -164,6 +164,7 @@ func frostRules(c *frost.Config, input []byte) []string {
 	if tableHasDuplicate(input, "VerificationShares") {
 		r.add("duplicate party in the encoded table")
 	}
+	missingFromTable(r, input, "VerificationShares", func(k string) bool { _, ok := table[k]; return ok })
 	return r.broken
 }
 
@@ -187,6 +188,7 @@ func taprootRules(c *frost.TaprootConfig, input []byte) []string {
 	if tableHasDuplicate(input, "VerificationShares") {
 		r.add("duplicate party in the encoded table")
 	}
+	missingFromTable(r, input, "VerificationShares", func(k string) bool { _, ok := table[k]; return ok })
 	return r.broken
 }
 
@@ -426,6 +428,8 @@ func presigRules(p *ecdsa.PreSignature, input []byte) []string {
 	if tableHasDuplicate(input, "RBar") || tableHasDuplicate(input, "S") {
 		r.add("duplicate party in the encoded table")
 	}
+	missingFromTable(r, input, "RBar", func(k string) bool { return a[k] })
+	missingFromTable(r, input, "S", func(k string) bool { return b[k] })
 	return r.broken
 }
 
